@@ -331,26 +331,26 @@ def _solver_checks(s, ch, Kk, Ns, P, tol=1e-6, exact_power=True, aligned=False):
     Pv = np.ones(Kk) * P if np.isscalar(P) else np.array(P, dtype=float)
     for k in range(Kk):
         F, fF = s.F[k], s.full_F[k]
-        if abs(np.linalg.norm(F, 'fro') - 1) > 1e-8:
+        if not (abs(np.linalg.norm(F, 'fro') - 1) <= 1e-8):
             return {"precoder not unit norm": [k, float(np.linalg.norm(F, 'fro'))]}
         pw = np.linalg.norm(fF, 'fro') ** 2
-        if pw > Pv[k] * (1 + 1e-8):
+        if not (pw <= Pv[k] * (1 + 1e-8)):
             return {"power exceeded": [k, float(pw), float(Pv[k])]}
-        if exact_power and abs(pw - Pv[k]) > 1e-8 * Pv[k]:
+        if exact_power and not (abs(pw - Pv[k]) <= 1e-8 * Pv[k]):
             return {"power not met": [k, float(pw), float(Pv[k])]}
         if s.Ns[k] != F.shape[1] or s.W_H[k].shape[0] != s.Ns[k] or s.full_W_H[k].shape[0] != s.Ns[k]:
             return {"Ns inconsistent with shapes": [k, int(s.Ns[k]), list(F.shape), list(s.W_H[k].shape)]}
         E = s.full_W_H[k] @ ch.get_Hkl(k, k) @ fF
-        if np.abs(E - np.eye(s.Ns[k])).max() > 1e-6:
+        if not (np.abs(E - np.eye(s.Ns[k])).max() <= 1e-6):
             return {"full_W_H H_kk full_F != I": [k, float(np.abs(E - np.eye(s.Ns[k])).max())]}
-        if np.abs(s.full_W[k] - s.full_W_H[k].conj().T).max() > 1e-12 or np.abs(s.W[k] - s.W_H[k].conj().T).max() > 1e-12:
+        if not (np.abs(s.full_W[k] - s.full_W_H[k].conj().T).max() <= 1e-12) or not (np.abs(s.W[k] - s.W_H[k].conj().T).max() <= 1e-12):
             return {"W / W_H inconsistent": k}
     if aligned:
         for k in range(Kk):
             for l in range(Kk):
                 if l != k:
                     leak = np.abs(s.W_H[k] @ ch.get_Hkl(k, l) @ s.F[l]).max()
-                    if leak > 1e-8:
+                    if not (leak <= 1e-8):
                         return {"closed form does not null cross interference": [k, l, float(leak)]}
     return None
 
@@ -583,3 +583,40 @@ def ob_cf_nonoise():
             return {"solve raised ZeroDivisionError (interference+noise exactly 0 in _calc_SINR_k)": True}
         return None
     return bounded([{"seed": k} for k in range(1000)], check, max_fail=2)
+
+
+@obligation("solvers/stream_reduction_wrappers", kind="bounded", timeout=900,
+            desc="GreedStreamIASolver and BruteForceStreamIASolver around MaxSINR / MMSE / alternating-minimisation on 4x4 K=3 channels with 2 "
+                 "requested streams, scalar and vector powers: solving completes and the solution left in the wrapped solver is valid "
+                 "(unit-norm F, power met / not exceeded, stream counts consistent with the shapes, full filters invert the direct channel)")
+def ob_stream_wrappers():
+    import warnings
+    import pyphysim.channels.multiuser as mu
+    import pyphysim.ia.algorithms as alg
+
+    def gen():
+        for seed in range(3 if quick() else 12):
+            for inner in ("MaxSinrIASolver", "MMSEIASolver", "AlternatingMinIASolver"):
+                for wrap in ("GreedStreamIASolver", "BruteForceStreamIASolver"):
+                    for vec in (False, True):
+                        yield {"seed": seed, "inner": inner, "wrapper": wrap, "vector_power": vec}
+
+    def check(case):
+        seed = case["seed"]
+        ch = mu.MultiUserChannelMatrix()
+        ch._RS_channel = np.random.RandomState(seed)
+        ch.randomize(4, 4, 3)
+        ch.noise_var = 0.1
+        s = getattr(alg, case["inner"])(ch)
+        s._rs = np.random.RandomState(seed + 1)
+        s.max_iterations = 20
+        w = getattr(alg, case["wrapper"])(s)
+        P = np.array([0.5, 1.5, 3.0]) if case["vector_power"] else 1.5
+        with warnings.catch_warnings():
+            warnings.simplefilter("ignore")
+            try:
+                w.solve(2, P)
+            except Exception as e:
+                return {"solve did not complete": repr(e)[:200]}
+        return _solver_checks(s, ch, 3, None, P, exact_power=(case["inner"] != "MMSEIASolver"))
+    return bounded(gen(), check)
